@@ -59,7 +59,9 @@ def is_purge_iter(s):
     if not s.conds_of('EXPIRED') and not s.conds_of('EXPIRED_STRICT'):
         return False
     st = s.state_effects()
-    return all(e.kind == 'UNBIND' and e.ent.kind == 'VIA' for e in st)
+    return bool(st) and all((e.kind == 'UNBIND' and e.ent.kind == 'VIA') or
+                            (e.kind == 'AUX_DEL' and e.ent is not None and e.ent.kind == 'FRONT' and getattr(e, 'how', '') == 'pop_front')
+                            for e in st) and any(e.kind == 'UNBIND' for e in st)
 
 
 def purge_loops(seg):
@@ -115,6 +117,39 @@ def bodiless_iterations(top):
         for s in fs:
             if s.status == 'exit':
                 continue
+            if s.status in ('break', 'ret') and not s.state_effects() and not [e for e in s.effects if e.kind in ('OUT_WR', 'OUT_CALL')]:
+                continue      # the loop's own exit test (for(;;) { if (it == end) break; ... })
             if not s.conds_of('PRESENT') and not find_bodies(s, None):
                 out.append((lp, s))
     return out
+
+
+def tally_var(ret):
+    """(name, uid) of the local variable whose final value a method returns, if the returned term is such a variable"""
+    if isinstance(ret, tuple) and ret:
+        if ret[0] == 'lv':
+            return (ret[1], ret[4] if len(ret) > 4 and ret[4] != 'param' else None)
+        if ret[0] == 'var':
+            return (ret[1], ret[2] if len(ret) > 2 else None)
+    return None
+
+
+def is_var(loc, var):
+    return (var is not None and isinstance(loc, tuple) and loc and loc[0] == 'var' and loc[1] == var[0]
+            and (var[1] is None or len(loc) < 3 or loc[2] == var[1]))
+
+
+def local_writes(seg, var, decl=None):
+    out = [e for e in seg.effects if e.kind == 'LOCAL' and is_var(e.loc, var)]
+    # `x += 0` / `x = x`: not a change
+    out = [e for e in out if not (e.how != 'decl' and isinstance(e.val, tuple) and e.val and e.val[0] == 'lv' and e.val[1] == var[0])]
+    if decl is True:
+        out = [e for e in out if e.how == 'decl']
+    elif decl is False:
+        out = [e for e in out if e.how != 'decl']
+    return out
+
+
+def is_increment(e, var):
+    v = e.val
+    return isinstance(v, tuple) and v and v[0] == 'add' and v[2] == 1 and isinstance(v[1], tuple) and v[1][0] == 'lv' and v[1][1] == var[0]
